@@ -25,7 +25,7 @@ from . import lib
 
 AREA = "Fees"
 THEOREMS = "ThOkPaysFee ThPaddingCovers ThTrichotomy ThNoInputs ThSupportIsStructural ThAmountsSane"
-MIN_CASES = 20000
+MIN_CASES = 15000
 REQUIRED = ["pczt:ok", "pczt:insufficient", "pczt:change", "pczt:unsupported", "pczt:pczt_zip212", "build:ok", "build:insufficient",
             "build:change", "build:unsupported", "build:missing_key", "deferred:ok", "deferred:insufficient", "deferred:change",
             "deferred:refused_new", "add_refused:add_orchard_output", "add_refused:add_ironwood_output", "add_refused:add_orchard_spend",
